@@ -106,6 +106,12 @@ def queue_head(F, R):
             r = discr_switch_after_call(cs, bi)
             if r:
                 nofirst.append((r[0], r[1].get(0, r[2])))
+            # the same test through is_some() / is_none() on the taken value (`let running = call.is_some()`)
+            for xb, xt in cs.calls_to(r'^std::option::Option::<T>::is_(some|none)$'):
+                if xt['args'] and any(l[0] == 'call' and len(l) > 2 and l[2] == bi for l in Origin(cs).of_operand(xt['args'][0])):
+                    rr = call_bool_branch(cs, xb)
+                    if rr and rr[0] != 'discr':
+                        nofirst.append((rr[0], rr[2] if callee_name(xt).endswith('is_some') else rr[1]))
     for bi, t in encs:
         R.ob('C04.queue-head', 'call_service|inline-write|queue-empty', any(edge_dominates(cs, s, t_, bi) for s, t_ in empties), 'the inline fast path writes a response while older responses are still queued', cs.loc(bi))
         R.ob('C04.queue-head', 'call_service|inline-write|no-first-call-running', any(edge_dominates(cs, s, t_, bi) for s, t_ in nofirst), 'the inline fast path writes while the first pending call is still running', cs.loc(bi))
